@@ -26,6 +26,33 @@ func init() {
 			{ID: "C14.R7", Floor: 2, Doc: "bounded cache: Add evicts beyond MaxEntries; size from MaxPreparedStmts", Run: c14r7},
 			{ID: "C14.R8", Floor: 1, Doc: "the single-flight PREPARE is executed on the connection context", Run: c14r8},
 			{ID: "C14.R9", Floor: 1, Doc: "keyFor concatenates host id, keyspace and statement as they are (no transformed component)", Run: c14r9},
+			{ID: "C14.R11", Floor: 1, Doc: "nothing waits for an in-flight PREPARE (a bare receive on a channel) while holding a mutex: the failing PREPARE removes its entry under the cache mutex before it closes done (=C17.R20, functions that touch inflightPrepare)", Run: func(p *Program, r *Report) {
+				touches := func(fi *FuncInfo) bool {
+					hit := false
+					ast.Inspect(fi.Decl.Body, func(x ast.Node) bool {
+						if e, ok := x.(ast.Expr); ok && !hit {
+							if t := fi.Pkg.TypesInfo.TypeOf(e); t != nil && typeNameOf(t) == "inflightPrepare" {
+								hit = true
+							}
+						}
+						return !hit
+					})
+					return hit
+				}
+				nf := 0
+				for _, fi := range p.SortedFuncs() {
+					if fi.Decl.Body != nil && touches(fi) {
+						nf++
+					}
+				}
+				if nf == 0 {
+					r.Unresolved("no function handles an inflightPrepare")
+					return
+				}
+				if blockingUnderLock(p, r, touches) == 0 {
+					r.OK(p.Root.Syntax[0], "functions handling an inflightPrepare wait on a channel only in a select", fmtInt(nf)+" functions inspected, no bare receive")
+				}
+			}},
 			{ID: "C14.R10", Floor: 1, Doc: "lru Get moves the entry to the front on every path that reports a hit", Run: c14r10},
 		},
 	})
